@@ -4,11 +4,13 @@ CONSTANTS
   LocalBits <- Local6
   K = 2
   Peers <- Peers10
+  Addrs <- Addrs2
   Targets <- Targets10
   Counts <- Counts4
   MaxOps = 40
 VIEW view
-INVARIANTS Valid NearestOK
+INVARIANTS Valid NearestOK AddrOK SizeOK
+PROPERTIES RemoveGone
 CONSTRAINT InitOut
 ACTION_CONSTRAINT Edge
 CHECK_DEADLOCK FALSE
